@@ -47,4 +47,7 @@ bc55396 C16
 ac10d4b C14
 baf1ef2 C14
 c1d8696 C12 C01
+b07ea5c C05
+c49c330 C20
+21f8a1e C10
 LIST
